@@ -24,7 +24,7 @@ generated_lean = c01.generated_lean
 def _jobs(ctx):
     q = ctx.quick()
     n = 40 if q else 500
-    return sc.corpus_job(ctx) + [(f'models{k}', ['models', n]) for k in range(8 if q else 14)] + [(f'forced{k}', ['forced', n]) for k in range(3 if q else 6)] + [(f'vacc{k}', ['vacc', n]) for k in range(2 if q else 4)] + [('compfix', ['compfix', n])]
+    return sc.corpus_job(ctx) + [(f'models{k}', ['models', n]) for k in range(8 if q else 14)] + [(f'forced{k}', ['forced', n]) for k in range(3 if q else 6)] + [(f'vacc{k}', ['vacc', n]) for k in range(2 if q else 4)] + [('compfix', ['compfix', n]), ('fixrec0', ['fixrec0', n])]
 
 
 def tie(ctx):
@@ -34,7 +34,7 @@ def tie(ctx):
 
 
 def search(ctx, hint):
-    return sc.search_with(ctx, hint, [(f's{k}', ['models', 200]) for k in range(6)] + [(f'f{k}', ['forced', 200]) for k in range(3)] + [('v', ['vacc', 300]), ('cf', ['compfix', 300])])
+    return sc.search_with(ctx, hint, [(f's{k}', ['models', 200]) for k in range(6)] + [(f'f{k}', ['forced', 200]) for k in range(3)] + [('v', ['vacc', 300]), ('cf', ['compfix', 300]), ('f0', ['fixrec0', 300])])
 
 
 def replay(ctx, rep):
